@@ -66,7 +66,7 @@ SEPS2 = ["\n", "\t"]
 CASES = {"lower": str.lower, "cap": str.capitalize,
          "mixed": lambda x: "".join(c.lower() if j % 2 else c.upper() for j, c in enumerate(x))}
 UNIFORM = ["one-per-line", "one-per-line-indented", "all-glued", "all-double", "all-tab", "crlf-lines", "lower", "cap", "mixed",
-           "lower+one-per-line-indented", "mixed+all-glued"]
+           "lower+one-per-line-indented", "mixed+all-glued", "glued-tab"]
 NLQ = re.compile(r"\n[\w]*['\\]*[\w]*'")
 TRANSFORMS = ["crlf", "blank-lines", "trailing-blanks", "tab-indent", "leading-blanks"]
 
@@ -117,6 +117,9 @@ def uniform(tk, how):
             gaps = {i: "\n  " for i in range(1, len(tk))}
         elif p == "all-glued":
             gaps = {i: "" for i in range(1, len(tk)) if tk[i][1] == "P" or tk[i - 1][1] == "P"}
+        elif p == "glued-tab":
+            # nothing around punctuation, a tab everywhere else (also directly in front of a literal)
+            gaps = {i: ("" if (tk[i][1] == "P" or tk[i - 1][1] == "P") else "\t") for i in range(1, len(tk))}
         elif p == "all-double":
             gaps = {i: "  " for i in range(1, len(tk))}
         elif p == "all-tab":
